@@ -431,8 +431,24 @@ func Wt(e *Ex) bool {
 	case "isnull":
 		return true
 	case "in":
-		for i := 1; i < len(e.A); i++ {
-			if !compat(t(0), t(i)) {
+		// mirror of same_cls: all non-NULL operand types in one class (integer-like, decimal, string)
+		cls := 0
+		for i := range e.A {
+			k := 0
+			switch t(i) {
+			case "bool", "int":
+				k = 1
+			case "dec":
+				k = 2
+			case "str":
+				k = 3
+			}
+			if k == 0 {
+				continue
+			}
+			if cls == 0 {
+				cls = k
+			} else if k != cls {
 				return false
 			}
 		}
